@@ -33,15 +33,33 @@ pub struct Scn {
     /// schedules drawn per scheduler seed
     pub iters: usize,
     pub sched: Sched,
+    /// fault: the traffic pauses before frame `.0` for `.1` simulated ns (shorter than any flow lifetime)
+    #[serde(default)]
+    pub idle_gap: Option<(usize, u64)>,
 }
 
 fn sequential(cfg: &PoolCfg, trace: &[Timed]) -> Result<Vec<Vec<Obs>>, Violation> {
+    sequential_gap(cfg, trace, None)
+}
+
+fn sequential_gap(cfg: &PoolCfg, trace: &[Timed], gap: Option<(usize, u64)>) -> Result<Vec<Vec<Obs>>, Violation> {
     let mut sc = SutCfg::new(cfg.kind.sut_kind(), cfg.cap);
     sc.with_db = cfg.with_db;
     sc.filter = cfg.filter.clone();
     clock::arm(1_700_000_000_000); // frozen, as in the pool executions
     let mut s = Sut::new(&sc).map_err(|e| Violation::new("harness-error", "", e))?;
-    Ok(trace.iter().map(|p| s.deliver(&p.frame).obs).collect())
+    Ok(trace
+        .iter()
+        .enumerate()
+        .map(|(i, p)| {
+            if let Some((at, ns)) = gap {
+                if i == at {
+                    clock::advance_ns(ns);
+                }
+            }
+            s.deliver(&p.frame).obs
+        })
+        .collect())
 }
 
 fn conn_key(kind: PoolKind, o: &Obs) -> String {
@@ -99,10 +117,10 @@ fn run_eq(s: &Scn, st: &mut RunStats, check_probe_only: bool) -> Result<(), Viol
     let kind = s.cfg.kind;
     let mut all: Vec<Timed> = s.trace.clone();
     all.extend(s.probe.iter().cloned());
-    let seq_all = sequential(&s.cfg, &all)?;
+    let seq_all = sequential_gap(&s.cfg, &all, s.idle_gap)?;
     let seq_probe_fresh = if s.probe.is_empty() { vec![] } else { sequential(&s.cfg, &s.probe)? };
     let n = all.len();
-    let plan = Arc::new(ExecPlan { via_analyzer: s.via_analyzer, cfg: s.cfg.clone(), dispatchers: vec![all.iter().map(|p| p.frame.clone()).collect()], stats_calls: 0, wait_for: None, consumer_gone_after: None, shutdown_after_yields: None });
+    let plan = Arc::new(ExecPlan { via_analyzer: s.via_analyzer, cfg: s.cfg.clone(), dispatchers: vec![all.iter().map(|p| p.frame.clone()).collect()], stats_calls: 0, wait_for: None, consumer_gone_after: None, shutdown_after_yields: None, idle_gap: s.idle_gap });
     st.evals = 0;
     let mut any = false;
     for seed in &s.schedules {
@@ -123,6 +141,9 @@ fn run_eq(s: &Scn, st: &mut RunStats, check_probe_only: bool) -> Result<(), Viol
         }
         if s.via_analyzer {
             st.probe("driven_through_process_parallel");
+        }
+        if s.idle_gap.is_some() {
+            st.fault("traffic_pauses_and_workers_time_out");
         }
         if check_probe_only {
             // C01 pool part: after arbitrary faulty traffic the workers are alive and treat the probe like a fresh analyzer
@@ -289,6 +310,11 @@ fn gen_cfg(r: &mut Rng, kind: PoolKind, trace_len: usize) -> PoolCfg {
 
 fn shrink_common(s: &Scn) -> Vec<Scn> {
     let mut out = vec![];
+    if s.idle_gap.is_some() {
+        let mut x = s.clone();
+        x.idle_gap = None;
+        out.push(x);
+    }
     if s.schedules.len() > 1 {
         for sd in &s.schedules {
             let mut x = s.clone();
@@ -368,14 +394,22 @@ impl Prop for C10 {
             cfg.workers = *r.pick(&[2usize, 2, 3, 4]);
             // the TCP analyzer tracks timestamps per direction: two entries per connection
             cfg.cap = if kind == PoolKind::Tcp { 2 * n } else { n };
-            return Scn { cfg, trace, probe: vec![], via_analyzer: false, schedules: vec![r.next_u64()], iters: 2, sched: Sched::Random };
+            return Scn { idle_gap: None, cfg, trace, probe: vec![], via_analyzer: false, schedules: vec![r.next_u64()], iters: 2, sched: Sched::Random };
         }
         let n = r.urange(2, tier.pick(6, 12));
         let trace = gen_trace(r, kind, n, true);
         let cfg = gen_cfg(r, kind, trace.len());
         let n_sched = tier.pick(2, 10);
         let via = r.chance(1, 4);
-        Scn { cfg, trace, probe: vec![], via_analyzer: via, schedules: (0..n_sched).map(|_| r.next_u64()).collect(), iters: tier.pick(8, 20), sched: if tier == Tier::Thorough && r.chance(1, 4) { Sched::Pct(r.urange(2, 3)) } else { Sched::Random } }
+        // fault, one scenario in six (HTTP and TLS pools; TCP results carry receive times): the traffic pauses for
+        // less than a flow lifetime at some point of the trace
+        let idle_gap = if !via && kind != PoolKind::Tcp && r.chance(1, 6) {
+            let g = if kind == PoolKind::Tls { *r.pick(&[5u64, 12, 19]) } else { *r.pick(&[12u64, 30, 55]) };
+            Some((r.usize_below(trace.len().max(1)), g * 1_000_000_000))
+        } else {
+            None
+        };
+        Scn { idle_gap, cfg, trace, probe: vec![], via_analyzer: via, schedules: (0..n_sched).map(|_| r.next_u64()).collect(), iters: tier.pick(8, 20), sched: if tier == Tier::Thorough && r.chance(1, 4) { Sched::Pct(r.urange(2, 3)) } else { Sched::Random } }
     }
 
     fn run(s: &Scn, st: &mut RunStats) -> Result<(), Violation> {
@@ -414,7 +448,7 @@ impl Prop for C08Pool {
         cfg.workers = *r.pick(&[1usize, 2, 3, 4, 8]);
         cfg.batch = *r.pick(&[1usize, 2, 4, 32]);
         let n_sched = tier.pick(2, 8);
-        Scn { cfg, trace, probe: vec![], via_analyzer: false, schedules: (0..n_sched).map(|_| r.next_u64()).collect(), iters: tier.pick(6, 12), sched: Sched::Random }
+        Scn { idle_gap: None, cfg, trace, probe: vec![], via_analyzer: false, schedules: (0..n_sched).map(|_| r.next_u64()).collect(), iters: tier.pick(6, 12), sched: Sched::Random }
     }
 
     fn run(s: &Scn, st: &mut RunStats) -> Result<(), Violation> {
@@ -475,7 +509,7 @@ impl Prop for C01Pool {
         let mut cfg = gen_cfg(r, kind, trace.len() + probe.len());
         cfg.workers = *r.pick(&[1usize, 2, 3, 4]);
         let n_sched = tier.pick(2, 6);
-        Scn { cfg, trace, probe, via_analyzer: false, schedules: (0..n_sched).map(|_| r.next_u64()).collect(), iters: tier.pick(4, 10), sched: Sched::Random }
+        Scn { idle_gap: None, cfg, trace, probe, via_analyzer: false, schedules: (0..n_sched).map(|_| r.next_u64()).collect(), iters: tier.pick(4, 10), sched: Sched::Random }
     }
 
     fn run(s: &Scn, st: &mut RunStats) -> Result<(), Violation> {
@@ -534,7 +568,7 @@ impl Prop for C15Pool {
         let mut cfg = gen_cfg(r, kind, trace.len());
         cfg.filter = Some(super::c15::gen_filter(r, &trace));
         let n_sched = tier.pick(2, 6);
-        Scn { cfg, trace, probe: vec![], via_analyzer: r.chance(1, 4), schedules: (0..n_sched).map(|_| r.next_u64()).collect(), iters: tier.pick(4, 10), sched: Sched::Random }
+        Scn { idle_gap: None, cfg, trace, probe: vec![], via_analyzer: r.chance(1, 4), schedules: (0..n_sched).map(|_| r.next_u64()).collect(), iters: tier.pick(4, 10), sched: Sched::Random }
     }
 
     fn run(s: &Scn, st: &mut RunStats) -> Result<(), Violation> {
@@ -546,7 +580,7 @@ impl Prop for C15Pool {
         let mut unfiltered = s.cfg.clone();
         unfiltered.filter = None;
         let expect = sequential(&unfiltered, &sub)?;
-        let plan = Arc::new(ExecPlan { via_analyzer: s.via_analyzer, cfg: s.cfg.clone(), dispatchers: vec![s.trace.iter().map(|p| p.frame.clone()).collect()], stats_calls: 0, wait_for: None, consumer_gone_after: None, shutdown_after_yields: None });
+        let plan = Arc::new(ExecPlan { via_analyzer: s.via_analyzer, cfg: s.cfg.clone(), dispatchers: vec![s.trace.iter().map(|p| p.frame.clone()).collect()], stats_calls: 0, wait_for: None, consumer_gone_after: None, shutdown_after_yields: None, idle_gap: None });
         let n_adm = admit.iter().filter(|a| **a == Some(true)).count();
         let n_rej = admit.iter().filter(|a| **a == Some(false)).count();
         st.probe_n("frames_admitted", n_adm as u64);
